@@ -547,6 +547,40 @@ def adversarial_documents(rng, desc, n):
                  and not any(a["type"][0] == "nonNull" and a.get("default") is None for a in h.get("args") or [])] if gt else []
         body = ("a: %s" % rng.choice(inner)["name"]) if inner else "a: __typename"
         out.append(("merge-safe-levels", "{ a: %s%s %s%s { %s } }" % (f["name"], req_args(f), g["name"], req_args(g), body), {}))
+    # conflicts NESTED below same-key composite fields (sub-conflicts, reported with the nodes of every level), at depth
+    # 1..3, also through fragments: the rule collects, sorts and formats the nodes of all levels
+    def noreq(h):
+        return not any(a["type"][0] == "nonNull" and a.get("default") is None for a in h.get("args") or [])
+
+    def nested_conflict(tname, depth):
+        """(selection A, selection B) on type tname conflicting at `depth` levels below"""
+        t = desc_type(desc, tname)
+        fs = [h for h in (t.get("fields") or []) if noreq(h)] if t and t["kind"] in ("object", "interface") else []
+        leafs = [h for h in fs if kind_of(desc, ty_base(h["type"])) in ("scalar", "enum")]
+        comps = [h for h in fs if kind_of(desc, ty_base(h["type"])) in ("object", "interface")]
+        if depth <= 0 or not comps:
+            if len(leafs) >= 2:
+                a, b = rng.sample(leafs, 2)
+                return "x: %s" % a["name"], "x: %s" % b["name"]
+            if leafs:
+                return "x: %s" % leafs[0]["name"], "x: __typename"
+            return None
+        g = rng.choice(comps)
+        r = nested_conflict(ty_base(g["type"]), depth - 1)
+        if r is None:
+            return None
+        return "%s { %s }" % (g["name"], r[0]), "%s { %s }" % (g["name"], r[1])
+    for g in [f for f in comp if kind_of(desc, ty_base(f["type"])) in ("object", "interface")][:2]:
+        r = nested_conflict(ty_base(g["type"]), rng.randint(0, 2))
+        if r is None:
+            continue
+        head = "%s%s" % (g["name"], req_args(g))
+        if rng.random() < 0.5:
+            out.append(("nested-subconflict", "{ %s { %s } %s { %s } }" % (head, r[0], head, r[1]), {}))
+        else:
+            tn = ty_base(g["type"])
+            out.append(("nested-subconflict-fragments", "{ %s { ...NA } %s { ...NB } } fragment NA on %s { %s } fragment NB on %s { %s }"
+                        % (head, head, tn, r[0], tn, r[1]), {}))
     # untyped inline fragments: under an ABSTRACT-typed field, a field whose type IMPLEMENTS that abstract type contains an
     # untyped inline fragment; then, one level up (in the abstract type's own selection set), another untyped inline
     # fragment selects implementation-only fields. A type-info stack that leaks the inner type would validate them.
